@@ -1151,3 +1151,156 @@ Proof.
   - lia.
   - lia.
 Qed.
+(* ------------------------------------------------------------------------------------ *)
+(** * the chunks formula read on lists: [firstn n], then the same on [skipn n] *)
+
+Lemma chunks_abs_v_unfold n o k : 1 <= n -> 0 < k ->
+  chunks_abs_v n (mkv o k) = mkv o (Z.min n k) :: chunks_abs_v n (mkv (o + n) (k - n)).
+Proof.
+  intros Hn Hk. unfold chunks_abs_v. cbn [voff vlen].
+  assert (0 < chunks_count n k).
+  { rewrite cnt_pos by lia. destruct (last_chunk_bounds n k Hn Hk). lia. }
+  rewrite map_ziota_front by lia. f_equal; [f_equal; lia|].
+  apply map_ziota_eq; [now rewrite cnt_sub | intros; f_equal; lia].
+Qed.
+Lemma chunks_abs_v_nonpos n o k : 1 <= n -> k <= 0 -> chunks_abs_v n (mkv o k) = [].
+Proof.
+  intros Hn Hk. unfold chunks_abs_v. cbn [voff vlen]. apply map_ziota_nil. unfold chunks_count.
+  assert ((k + n - 1) / n < 1) by (apply Z.div_lt_upper_bound; lia). lia.
+Qed.
+
+Lemma skipn_skipn' {A} (a : nat) : forall b (l : list A), skipn a (skipn b l) = skipn (b + a) l.
+Proof.
+  induction b as [|b IH]; intro l; [reflexivity|]. destruct l as [|x l]; cbn [skipn Nat.add].
+  - now rewrite skipn_nil.
+  - apply IH.
+Qed.
+
+Section Contents.
+  Variable A : Type.
+
+  Lemma chunks_contents_gen n : 1 <= n -> forall fuel (l : list A) o k,
+    0 <= o -> o + k = zlen l -> k <= Z.of_nat fuel ->
+    map (sub l) (chunks_abs_v n (mkv o k)) = chunks_list fuel (Z.to_nat n) (skipn (Z.to_nat o) l).
+  Proof.
+    intros Hn. induction fuel as [|f IH]; intros l o k Ho Hs Hf.
+    - rewrite chunks_abs_v_nonpos by lia. reflexivity.
+    - destruct (Z.leb_spec k 0) as [Hk|Hk].
+      + rewrite chunks_abs_v_nonpos by lia. rewrite skipn_all2 by (unfold zlen in Hs; lia). reflexivity.
+      + rewrite chunks_abs_v_unfold by lia. cbn [map chunks_list].
+        assert (Ht : length (skipn (Z.to_nat o) l) = Z.to_nat k) by (rewrite skipn_length; unfold zlen in Hs; lia).
+        destruct (skipn (Z.to_nat o) l) as [|x r] eqn:Et; [cbn in Ht; lia|]. rewrite <- Et in *.
+        f_equal.
+        * unfold sub. cbn [voff vlen]. destruct (Z.leb_spec n k).
+          -- replace (Z.min n k) with n by lia. reflexivity.
+          -- replace (Z.min n k) with k by lia. rewrite !firstn_all2 by lia. reflexivity.
+        * rewrite (IH l (o + n) (k - n)) by lia. f_equal.
+          rewrite skipn_skipn'. f_equal. lia.
+  Qed.
+
+  (** chunks(n) of a list = its first n elements, then chunks(n) of the rest *)
+  Theorem chunks_contents n (l : list A) : 1 <= n ->
+    map (sub l) (chunks_spec n (zlen l)) = chunks_list (length l) (Z.to_nat n) l.
+  Proof.
+    intro Hn. replace (chunks_spec n (zlen l)) with (chunks_abs_v n (mkv 0 (zlen l))).
+    - rewrite (chunks_contents_gen n Hn (length l) l 0 (zlen l)); unfold zlen; try lia. reflexivity.
+    - unfold chunks_abs_v, chunks_spec. cbn [voff vlen]. apply map_ziota_eq; [reflexivity | intros; f_equal; lia].
+  Qed.
+
+  Lemma chunks_list_concat n : (1 <= n)%nat -> forall fuel (l : list A),
+    (length l <= fuel)%nat -> concat (chunks_list fuel n l) = l.
+  Proof.
+    intros Hn. induction fuel as [|f IH]; intros l Hl.
+    - destruct l; [reflexivity | cbn in Hl; lia].
+    - destruct l as [|x r]; [reflexivity|]. cbn [chunks_list concat].
+      rewrite IH; [apply firstn_skipn|]. rewrite skipn_length. cbn [length] in *. lia.
+  Qed.
+
+  (** ... so the chunks tile the slice: concatenated they give it back *)
+  Theorem chunks_tile n (l : list A) : 1 <= n ->
+    concat (map (sub l) (chunks_spec n (zlen l))) = l.
+  Proof. intro Hn. rewrite chunks_contents by exact Hn. apply chunks_list_concat; lia. Qed.
+End Contents.
+
+(* ------------------------------------------------------------------------------------ *)
+(** * the other formulas reduced to chunks *)
+
+(** the same sub-slice counted from the other end of a slice of [len] elements *)
+Definition mirror (len : Z) (v : view) : view := mkv (len - voff v - vlen v) (vlen v).
+
+(** rchunks = chunks of the mirrored slice *)
+Theorem rchunks_is_mirrored_chunks n len :
+  rchunks_spec n len = map (mirror len) (chunks_spec n len).
+Proof.
+  unfold rchunks_spec, chunks_spec. rewrite map_map. apply map_ziota_eq; [reflexivity|].
+  intros i _. unfold mirror. cbn [voff vlen]. f_equal; lia.
+Qed.
+Theorem rchunks_exact_is_mirrored_chunks_exact n len : 1 <= n -> 0 <= len ->
+  rchunks_exact_spec n len = map (mirror len) (chunks_exact_spec n len) /\
+  rchunks_exact_rem n len = mirror len (chunks_exact_rem n len).
+Proof.
+  intros Hn Hl. unfold rchunks_exact_spec, chunks_exact_spec, rchunks_exact_rem, chunks_exact_rem, mirror.
+  cbn [voff vlen]. split.
+  - rewrite map_map. apply map_ziota_eq; [reflexivity|]. intros i _. cbn [voff vlen]. f_equal; lia.
+  - pose proof (Z.div_mod len n ltac:(lia)) as E. rewrite (Z.mul_comm n) in E. f_equal; lia.
+Qed.
+(** chunks_exact = chunks of the slice cut down to a multiple of n; remainder = the rest *)
+Theorem chunks_exact_is_chunks_of_cut n len : 1 <= n -> 0 <= len ->
+  chunks_exact_spec n len = chunks_spec n (len / n * n) /\
+  chunks_exact_rem n len = mkv (len / n * n) (len - len / n * n).
+Proof.
+  intros Hn Hl. unfold chunks_exact_spec, chunks_spec, chunks_exact_rem. split.
+  - apply map_ziota_eq; [now rewrite cnt_mul|]. intros i Hi.
+    pose proof (mul_step n i (len / n) ltac:(lia) ltac:(lia)). f_equal; lia.
+  - pose proof (Z.div_mod len n ltac:(lia)) as E. rewrite (Z.mul_comm n) in E. f_equal; lia.
+Qed.
+
+(** the mirrored view of the reversed list covers the reversed elements *)
+Theorem sub_mirror {A} (l : list A) v : inside (zlen l) v ->
+  sub (rev l) v = rev (sub l (mirror (zlen l) v)).
+Proof.
+  destruct v as [o k]. unfold inside, sub, mirror, zlen. cbn [voff vlen]. intros [Ho [Hk Hs]].
+  rewrite skipn_rev, firstn_rev, firstn_length. f_equal.
+  replace (Z.to_nat (Z.of_nat (length l) - o - k)) with (length l - Z.to_nat o - Z.to_nat k)%nat by lia.
+  rewrite firstn_skipn_comm. f_equal; [lia|]. f_equal. lia.
+Qed.
+
+(* ------------------------------------------------------------------------------------ *)
+(** * windows on lists *)
+Lemma windows_abs_unfold n o k : 1 <= n -> n <= k ->
+  windows_abs (mk_windows (mkv o k) n) = mkv o n :: windows_abs (mk_windows (mkv (o + 1) (k - 1)) n).
+Proof.
+  intros Hn Hk. unfold windows_abs. cbn [w_slice w_size voff vlen].
+  rewrite map_ziota_front by lia. f_equal; [f_equal; lia|].
+  apply map_ziota_eq; [lia | intros; f_equal; lia].
+Qed.
+
+Lemma skipn_S_tl {A} : forall a (l : list A), skipn (S a) l = tl (skipn a l).
+Proof.
+  induction a as [|a IH]; intros [|x l]; try reflexivity. cbn [skipn]. rewrite <- IH. reflexivity.
+Qed.
+
+Section WindowsContents.
+  Variable A : Type.
+  Lemma windows_contents_gen n : 1 <= n -> forall fuel (l : list A) o k,
+    0 <= o -> 0 <= k -> o + k = zlen l -> k <= Z.of_nat fuel ->
+    map (sub l) (windows_abs (mk_windows (mkv o k) n)) = windows_list fuel (Z.to_nat n) (skipn (Z.to_nat o) l).
+  Proof.
+    intros Hn. induction fuel as [|f IH]; intros l o k Ho Hk Hs Hf.
+    - unfold windows_abs. cbn [w_slice w_size voff vlen]. rewrite map_ziota_nil by lia. reflexivity.
+    - assert (Ht : length (skipn (Z.to_nat o) l) = Z.to_nat k) by (rewrite skipn_length; unfold zlen in Hs; lia).
+      cbn [windows_list]. destruct (Nat.ltb_spec (length (skipn (Z.to_nat o) l)) (Z.to_nat n)) as [Hlt|Hge].
+      + unfold windows_abs. cbn [w_slice w_size voff vlen]. rewrite map_ziota_nil by lia. reflexivity.
+      + rewrite windows_abs_unfold by lia. cbn [map]. f_equal.
+        rewrite (IH l (o + 1) (k - 1)) by lia. f_equal.
+        replace (Z.to_nat (o + 1)) with (S (Z.to_nat o)) by lia. apply skipn_S_tl.
+  Qed.
+
+  (** windows(n) of a list = its first n elements, then windows(n) of its tail *)
+  Theorem windows_contents n (l : list A) : 1 <= n ->
+    map (sub l) (windows_spec n (zlen l)) = windows_list (length l) (Z.to_nat n) l.
+  Proof.
+    intro Hn. rewrite <- windows_abs_new.
+    rewrite (windows_contents_gen n Hn (length l) l 0 (zlen l)); unfold zlen; try lia. reflexivity.
+  Qed.
+End WindowsContents.
